@@ -1285,15 +1285,15 @@ def gen_cases(ctx):
         for s1 in alpha1:
             for s2 in alpha1:
                 add({"op": "hist", "steps": [first, s1, s2]})
-        for _ in range(20000):
+        for _ in range(50000):
             add({"op": "hist", "steps": [first, rng.choice(alpha1), rng.choice(alpha1), rng.choice(alpha1)]})
         galpha = list(_alphabet("group", 2, std))
-        for _ in range(10000):
+        for _ in range(20000):
             add({"op": "hist", "steps": [gfirst, rng.choice(galpha), rng.choice(galpha)]})
         calpha = list(_alphabet("separate", 1, ALL_CFGS))
-        for _ in range(15000):
+        for _ in range(30000):
             add({"op": "hist", "steps": [first, rng.choice(calpha), rng.choice(calpha)]})
-        for _ in range(20000):
+        for _ in range(30000):
             add(_random_history(rng))
     else:
         for _ in range(900):
@@ -1313,7 +1313,14 @@ def gen_cases(ctx):
 
 
 def search_cases(ctx):
-    return gen_cases(ctx)
+    """failing-input search after a broken proof or correspondence: the quick scope (exhaustive one-step alphabets)
+    with the search seed, plus more random histories"""
+    sub = common.Ctx(PID, "quick", ctx.seed)
+    cases = gen_cases(sub)
+    extra = [_random_history(sub.rng) for _ in range(3000)]
+    cases.extend(extra)
+    _mark_known_witnesses(cases)
+    return cases
 
 
 def shrink(case):
@@ -1384,7 +1391,7 @@ RULE = ("stage cases (exhaustive small scopes): MakeFilename arguments x name x 
         "csv/tex/pdf/png (64), the same with all 36 option settings; a group of two plots with every step of its "
         "256-step alphabet; groups of 1 and 3, 2 and 3 separate plots and seven naming variants with single deletions; "
         "quick adds 900 sampled two-step and 500 random histories (1-3 plots, 2-4 runs, random options), thorough "
-        "enumerates all 4096 histories of three runs of one plot (standard options) and samples 65 000 more (four runs, "
+        "enumerates all 4096 histories of three runs of one plot (standard options) and samples 130 000 more (four runs, "
         "groups, option settings, random); real sh-script converters on a "
         "sample.  Non-trivial: a history of at least two completed runs.")
 LEVEL_TEXT = ("Lean 4 theorems about a transcribed model of the output pipeline over an abstract file system, for all "
